@@ -1,7 +1,7 @@
 /-
   Proofs/DispatchStep.lean — C19: one program step with an operation of the classes in `goodOp` keeps `AlignedV`.
 -/
-import Deepali.Proofs.DispatchStable
+import Deepali.Proofs.DispatchNarrow
 
 set_option linter.unusedSectionVars false
 
@@ -117,6 +117,27 @@ theorem alignedV_stepOne_image (a0 : Nat) (other : Option SVal) (op : TOp) (f : 
   case getitem idx => exact hgen _ rfl (provLeRes_getitem idx t _)
   case iter => exact hgen _ rfl (provLeRes_iter t _)
   case split n dm => exact hgen _ rfl (provLeRes_split n dm t _)
+  case splitL secs dm =>
+    refine hgen _ rfl ?_
+    rw [torchSem_splitL]
+    cases normDim t.ndim dm.val with
+    | none => trivial
+    | some d' =>
+      simp only []
+      split
+      · trivial
+      · exact fun r hr p hp => Or.inl (provLeRes_pieces t d' secs r hr p hp)
+  case splitWS secs dm =>
+    refine hgen _ rfl ?_
+    rw [torchSem_splitWS]
+    cases normDim t.ndim dm.val with
+    | none => trivial
+    | some d' =>
+      simp only []
+      split
+      · trivial
+      · exact fun r hr p hp => Or.inl (provLeRes_pieces t d' secs r hr p hp)
+  case narrowM dm st ln => exact alignedV_image_narrow a0 other f t g a dm st ln hal
   case tsplitL idx dm => exact hgen _ rfl (provLeRes_tsplitL idx dm t _)
   case cat ops dm => exact alignedV_imageTF_cat a0 ops dm f t g a other hgood hal hother
   case narrowF dm st ln =>
@@ -173,9 +194,14 @@ theorem alignedV_stepOne_batch (a0 : Nat) (other : Option SVal) (op : TOp) (f : 
       have hk : k ≠ 0 := normDim_pos hn (by simpa using hgood)
       exact alignedV_batchTF_stable a0 (.roll s dm) f t gs a other t
         (by simp only [torchSem_roll, hn, hk, ne_eq, not_false_eq_true, true_or, if_true]) rfl rfl rfl rfl hal rfl rfl
-  case getitem idx => exact alignedV_batchGetitem a0 f a t gs idx (by simpa [goodOp] using hgood) hal
+  case getitem idx => exact alignedV_batchGetitem a0 f a t gs idx (by cases idx <;> simpa [goodOp] using hgood) hal
   case iter => exact alignedV_batchIter a0 f a t gs hal
   case split n dm => exact alignedV_batchTF_split a0 n dm f t gs a other hgood hal
+  case splitL secs dm => exact alignedV_batchTF_splitL a0 secs dm f t gs a other hgood hal
+  case splitWS secs dm => exact alignedV_batchTF_splitWS a0 secs dm f t gs a other hgood hal
+  case narrowM dm st ln =>
+    simp only [Bool.and_eq_true, decide_eq_true_eq] at hgood
+    exact alignedV_batchNarrow a0 f a t gs dm st ln hgood.1 hgood.2 hal
   case tsplitL idx dm => exact alignedV_batchTF_tsplitL a0 idx dm f t gs a other hgood hal
   case cat ops dm => exact alignedV_batchTF_cat a0 ops dm f t gs a other hgood hal hother
   case narrowF dm st ln =>
